@@ -13,7 +13,8 @@ for sid in sys.argv[1:]:
     ok = all(x in line for x in ('clean=pass', 'build=ok', 'tests=pass', 'patched=fails')) and 'apply=FAILED' not in line
     if not ok:
         print(sid, 'NOT CONFIRMED:', line); continue
-    if os.path.exists(dst): shutil.rmtree(dst)
+    if os.path.exists(dst):
+        print(sid, 'NOT INSTALLED: seeded/%s exists already (rename the incoming directory)' % sid); continue
     shutil.copytree(src, dst)
     rb = os.path.join(dst, 'patch.rebased.diff')
     if os.path.exists(rb):
